@@ -456,6 +456,7 @@ static void run_c03p(void)
             int counts[12], ncounts = 0;
             if (job % g_opts.nshards != g_opts.shard) continue;
             counts[ncounts++] = 1; counts[ncounts++] = P - 1; counts[ncounts++] = P; counts[ncounts++] = P + 1; counts[ncounts++] = 2 * P + 1; counts[ncounts++] = P + P / 2 + 1;
+            counts[ncounts++] = 9 * P + 1;     /* more than eight batches and a block (an unrolled dispatch loop has a remainder) */
             if (tier_thorough()) { counts[ncounts++] = 2; counts[ncounts++] = 3 * P; counts[ncounts++] = 3 * P + 1; }
             kdesc(&kc[ki], kd, sizeof(kd));
             for (ci = 0; ci < ncounts; ++ci) for (fam = 0; fam < 4; ++fam) {
